@@ -618,7 +618,7 @@ def check_selector_c07(ctx, sel):
     W = NF.atom(ex.arr_atom(work))
     cond = lp.info.get("cond")
     thr = sym("threshold")
-    okc = cond is not None and cond.t[0] == "any" and cond.t[1].t[0] == "cmp" and cond.t[1].t[1] == "<0" and any(a.kind == "arr" and a.args[0] == work.aid for a in atoms_of(cond.t[1].t[2]).values()) and nf_equal(_arrsub(cond.t[1].t[2], work.aid), thr - sym("W"))
+    okc = loop_cond_strict(cond, work.aid, thr)
     ctx.check(okc, rule, "loop-condition", sel.loc(lp.node), "rounds continue while some remaining score exceeds the threshold (strict >)", found=repr(cond), expected="any(work > threshold)")
     apps = loop_events(p, lp, "list_append")
     okp = len(apps) == 1 and isinstance(apps[0].data["value"], Num)
@@ -644,6 +644,24 @@ def check_selector_c07(ctx, sel):
     sd = [e for e in p.events if e.kind == "sorted"]
     ok_copy = len(sd) == 1 and bool(apps) and sd[0].data["src"] is apps[0].data["lst"] and p.value is sd[0].data["result"] and not sd[0].loops and not srt
     ctx.check(ok_inplace or ok_copy, rule, "sorted-result", (srt[0].loc() if srt else (sd[0].loc() if sd else sel.loc())), "the collected changepoints are sorted and returned", found=repr(p.value))
+
+
+def loop_cond_strict(cond, aid, thr):
+    """the rounds continue exactly while some remaining score is strictly above the threshold: `any(W > thr)`, or the
+    same statement about the maximum - `W.max() > thr`, `W[W.argmax()] > thr` (a test in the middle of a `while True`
+    body arrives here in that form)"""
+    if cond is None:
+        return False
+    if cond.t[0] == "any" and cond.t[1].t[0] == "cmp" and cond.t[1].t[1] == "<0":
+        body = cond.t[1].t[2]
+        return any(a.kind == "arr" and a.args[0] == aid for a in atoms_of(body).values()) and nf_equal(_arrsub(body, aid), thr - sym("W"))
+    if cond.t[0] == "cmp" and cond.t[1] == "<0":
+        body = _arrsub(cond.t[2], aid)
+        W = sym("W")
+        for m in (app("idx", W, (("at", app("argmax", W)),)), app("maxall", W)):
+            if nf_equal(body, thr - m):
+                return True
+    return False
 
 
 def _arrsub(nf, aid):
